@@ -258,6 +258,21 @@ def run_shard(desc, seed, tier, col):
             return {'b': d.bytes(d.int(0, 24)), 'label': 'random'}
         if r <= 3:
             return {'b': grammar_tlv(d, 3), 'label': 'grammar'}
+        if r == 4 and d.pct(50):
+            # a record of mandatory members in which one member arrives twice and another one not at all
+            kinds = d.draw(st.lists(st.sampled_from(['BOOLEAN', 'INTEGER', 'OCTETSTRING', 'NULL', 'OID', 'UTF8String', 'IA5String', 'BITSTRING']),
+                                    min_size=2, max_size=4, unique=True))
+            T = ir.mk(d.pick(['SET', 'SET', 'SEQUENCE']), comps=[ir.comp('abcd'[i], ir.mk(k), 'req' if i < 2 or d.pct(60) else 'opt')
+                                                                 for i, k in enumerate(kinds)])
+            v = {c['name']: gen.draw_value(d, c['t']) for c in T['comps']}
+            form = d.pick(['DER', 'BER-indef'])
+            e = x690.der(T, v) if form == 'DER' else x690.ber(T, v, x690.Fixed(indef=True, chunk=0))
+            top, _end = x690.walk(e)
+            i = d.int(0, len(top.kids) - 1)
+            j = (i + 1 + d.int(0, len(top.kids) - 2)) % len(top.kids)
+            body = b''.join(e[(top.kids[i] if n == j else k).start:(top.kids[i] if n == j else k).end] for n, k in enumerate(top.kids))
+            b = x690.ident(top.cls, True, top.num) + (x690.length(len(body)) + body if form == 'DER' else b'\x80' + body + b'\x00\x00')
+            return {'b': b, 'T': T, 'T2': None, 'label': 'member-twice'}
         ev = draw(gen.encoded_values(CFG, 1, 2))
         b = b''.join(ev['encs'])
         T2 = None
